@@ -402,7 +402,7 @@ def load_known(prop):
     p = os.path.join(ROOT, "known_findings.json")
     if not os.path.exists(p):
         return []
-    return [k for k in json.load(open(p)).get("findings", []) if k["property"] == prop]
+    return [k for k in json.load(open(p)).get("findings", []) if k["property"] == prop or prop in k.get("also", [])]
 
 
 def match_known(known, run, case, failure):
